@@ -145,8 +145,8 @@ Proof.
   - destruct e as [[nb co] a]. destruct He as (E1 & E2 & E3). cbn [fst snd] in E1, E2, E3. subst nb a.
     cbn [place_chunks] in H. cbn [p_chunks].
     unfold validate_size in H. destruct (k_nbytes key =? 0) eqn:Z; cbn [negb andb] in H; [discriminate|].
-    unfold MAX_CHUNK in H. destruct (k_nbytes key <=? 1073741824) eqn:Z2; cbn [negb] in H; [|discriminate].
-    apply N.leb_le in Z2. replace (1073741824 <? k_nbytes key) with false by (symmetry; apply N.ltb_ge; exact Z2).
+    destruct (k_nbytes key <=? MAX_CHUNK) eqn:Z2; cbn [negb] in H; [|discriminate].
+    apply N.leb_le in Z2. unfold MAX_CHUNK in Z2. replace (1073741824 <? k_nbytes key) with false by (symmetry; apply N.ltb_ge; exact Z2).
     cbn [orb].
     destruct (read_bytes_at f addr (k_nbytes key)) as [cd|] eqn:Erd; [|discriminate].
     rewrite run0_bind, (run0_read_bytes_at_model _ _ _ _ Hf Erd).
